@@ -186,7 +186,7 @@ func c15Exec(t *testing.T, sc *gen.Scenario, trace bool) *harness.Outcome {
 				simrt.Probe("horizon_runs")
 			}
 			page := int32(sc.Knob("page", 3))
-			for _, typ := range []string{"", "doc", "group"} {
+			for _, typ := range []string{"", "doc", "group", "docs"} {
 				got, err := srvChanges(ctx, b, e.store, typ, page)
 				if err != nil {
 					e.violate("unexpected_error:readchanges", "backend="+b.name, "ReadChanges(type=%q page=%d) on %s: %v", typ, page, b.name, err)
@@ -262,6 +262,60 @@ func c15Exec(t *testing.T, sc *gen.Scenario, trace bool) *harness.Outcome {
 			if strings.Join(a, ";") != strings.Join(rev, ";") {
 				e.violate("descending_not_reverse", "backend="+b.name, "storage ReadChanges on %s (page %d): ascending %v, descending reversed %v", b.name, page, a, rev)
 				return
+			}
+			// storage level, with a type filter and a horizon that cuts the history in two (memory backend:
+			// its horizon reads the virtual clock): the horizon withholds a suffix of the ascending listing,
+			// and descending stays the exact reverse of ascending
+			strs := func(cs []change) []string {
+				var o []string
+				for _, c := range cs {
+					o = append(o, c.String())
+				}
+				return o
+			}
+			for _, typ := range []string{"", "doc"} {
+				ascT, err := dumpChanges(ctx, b.ds, e.store, false, int(page), typ)
+				if err != nil {
+					e.violate("unexpected_error:readchanges", "backend="+b.name+" storage", "storage ReadChanges on %s: %v", b.name, err)
+					return
+				}
+				for _, c := range ascT {
+					if typ != "" && !strings.HasPrefix(c.tk, typ+":") {
+						e.violate("changelog_differs", fmt.Sprintf("backend=%s type=true storage", b.name), "storage ReadChanges(type=%q) on %s returned %s", typ, b.name, c)
+						return
+					}
+				}
+				if b.name != "memory" || len(times) < 2 {
+					continue
+				}
+				k := len(times) / 2
+				if times[k]-times[k-1] < 4*time.Millisecond {
+					continue
+				}
+				hz := e.run.Elapsed() - (times[k-1]+times[k])/2
+				ascH, err1 := dumpChangesH(ctx, b.ds, e.store, false, int(page), typ, hz)
+				dscH, err2 := dumpChangesH(ctx, b.ds, e.store, true, int(page), typ, hz)
+				if err1 != nil || err2 != nil {
+					e.violate("unexpected_error:readchanges", "backend="+b.name+" storage horizon", "storage ReadChanges with a horizon on %s: %v / %v", b.name, err1, err2)
+					return
+				}
+				out.Evals++
+				a, h := strs(ascT), strs(ascH)
+				if len(h) > len(a) || strings.Join(a[:len(h)], ";") != strings.Join(h, ";") {
+					e.violate("horizon_not_a_prefix", "backend="+b.name, "storage ReadChanges(type=%q, horizon %v) on %s: %v is not a prefix of the full listing %v", typ, hz, b.name, h, a)
+					return
+				}
+				rev := make([]string, len(dscH))
+				for i := range dscH {
+					rev[len(dscH)-1-i] = dscH[i].String()
+				}
+				if strings.Join(h, ";") != strings.Join(rev, ";") {
+					e.violate("descending_not_reverse", "backend="+b.name+" horizon", "storage ReadChanges(type=%q, horizon %v, page %d) on %s: ascending %v, descending reversed %v", typ, hz, page, b.name, h, rev)
+					return
+				}
+				if len(h) > 0 && len(h) < len(a) {
+					simrt.Probe("storage_horizon_cuts_history")
+				}
 			}
 			if len(ref.groups) > 0 {
 				out.NonTrivial = true
